@@ -475,6 +475,17 @@ func compareRegisteredTypes(a *RegisteredType, bs Sexp) (int, error) {
 	return 1, nil
 }
 
+// goTypeBehind is the Go type of the values of rt, for deriving its slice and
+// pointer types. Record names that were registered without a Go struct
+// (plain hashes, script-declared structs) have none cached: their values
+// are hashes.
+func goTypeBehind(rt *RegisteredType) reflect.Type {
+	if rt.TypeCache != nil {
+		return rt.TypeCache
+	}
+	return reflect.TypeOf(&SexpHash{})
+}
+
 func (gsr *GoStructRegistryType) GetOrCreatePointerType(pointedToType *RegisteredType) *RegisteredType {
 	Q("pointedToType = %#v", pointedToType)
 	ptrName := "*" + pointedToType.RegisteredName
@@ -483,7 +494,7 @@ func (gsr *GoStructRegistryType) GetOrCreatePointerType(pointedToType *Registere
 		Q("type named '%v' already registered, reusing the pointer type", ptrName)
 	} else {
 		Q("registering new pointer type '%v'", ptrName)
-		derivedType := reflect.PtrTo(pointedToType.TypeCache)
+		derivedType := reflect.PtrTo(goTypeBehind(pointedToType))
 		ptrRt = NewRegisteredType(func(env *Zlisp, h *SexpHash) (interface{}, error) {
 			return reflect.New(derivedType), nil
 		})
@@ -502,7 +513,7 @@ func (gsr *GoStructRegistryType) GetOrCreateSliceType(rt *RegisteredType) *Regis
 		Q("type named '%v' already registered, re-using the type", sliceName)
 	} else {
 		Q("registering new slice type '%v'", sliceName)
-		derivedType := reflect.SliceOf(rt.TypeCache)
+		derivedType := reflect.SliceOf(goTypeBehind(rt))
 		sliceRt = NewRegisteredType(func(env *Zlisp, h *SexpHash) (interface{}, error) {
 			return reflect.MakeSlice(derivedType, 0, 0), nil
 		})
